@@ -1,6 +1,8 @@
 import CCVerif.Model.Json
 import CCVerif.Lemmas.JsonDoc
 import CCVerif.Lemmas.JsonDocTags
+import CCVerif.Lemmas.JsonOss
+import CCVerif.Lemmas.JsonOssLoad
 /-!
 # C10 — saving and loading through JSON is lossless and stable
 
@@ -439,3 +441,128 @@ theorem model_roundtrip_statement_false : ¬ model_roundtrip_statement := by
   decide
 
 end CCVerif.JsonDoc
+
+
+/-! ## the OSS document (`Model/JsonOss.lean`: `to_json` / `from_json` of `oss::OSSchema`)
+
+Content `Oss` = the pictograms with their facet entries (source handle, operation handle with stored
+equations / translations / flags, grid cell) + the graph facet's rows. The iteration order of the C++
+hash containers (`storage`, `grid`, equation and translation maps) is NOT part of the statements: the
+content lists them in one order, writer and loader models keep it. [The real second document lists
+`items` / `layout` in another order than the first — harness line `c10 ossstableraw`; modulo that order
+the real documents agree: `c10 ossstable`.] -/
+namespace CCVerif.JsonOss
+open CCVerif.Json
+open CCVerif.Oss (Pid)
+
+/-- well-formed OSS content: the structural invariant of C19 (`StructInv`: one entry, one grid cell, one
+source handle per pictogram; every operation pictogram has two distinct existing parents, the others
+none; the parent relation decreases a rank), distinct keys in the stored equation / translation maps,
+and the graph facet lists parents before children (`RowsCanon`: creation order, kept by `Erase` and by
+a reload) -/
+structure OssWf (c : Oss) : Prop where
+  codec : CodecWf c
+  closed : ∀ r ∈ c.rows, r.1 ∈ c.items.map (·.uid) ∧ ∀ q ∈ r.2, q ∈ c.items.map (·.uid)
+  parents : ∀ p ∈ c.items, (p.op.isSome = true → (rowOf c.rows p.uid).length = 2 ∧ (rowOf c.rows p.uid).Nodup) ∧
+                           (p.op.isSome = false → rowOf c.rows p.uid = [])
+  acyclic : ∃ rank : Pid → Nat, ∀ r ∈ c.rows, ∀ q ∈ r.2, rank q < rank r.1
+
+/-- **oss_roundtrip**: load ∘ save reproduces every well-formed OSS content on every stored field — the
+header, every pictogram (uid, data type, title, alias, comment, media link, source handle with its
+hashes, operation type / broken / outdated flags / stored equations / translations, grid cell; the list
+`items` itself), the connections in `EdgeList` order and the parents of every pictogram in operand
+order — for every uid source `env`. -/
+theorem oss_roundtrip (env : Env) (c : Oss) (h : OssWf c) :
+    ∃ c', ossFromJson env (ossToJson c) = .ok c' ∧ c'.title = c.title ∧ c'.comment = c.comment ∧
+      c'.domain = c.domain ∧ c'.items = c.items ∧ edgeList c'.rows = edgeList c.rows ∧
+      ∀ p, rowOf c'.rows p = rowOf c.rows p :=
+  ⟨_, ossFromJson_toJson env c h.codec, rfl, rfl, rfl, rfl, loadEdges_edgeList c.rows h.codec.rows,
+    fun p => rowOf_loadEdges c.rows h.codec.rows p⟩
+
+/-- **oss_stable**: save ∘ load ∘ save = save (as JSON trees; hash-container order as listed) -/
+theorem oss_stable (env : Env) (c : Oss) (h : OssWf c) :
+    (ossFromJson env (ossToJson c)).map ossToJson = .ok (ossToJson c) := by
+  rw [ossFromJson_toJson env c h.codec]
+  simp only [Except.map, ossToJson, loadEdges_edgeList c.rows h.codec.rows]
+
+/-- the structural invariant holds for whatever an accepted document loads — full statement -/
+def oss_load_wf_statement : Prop :=
+  ∀ (env : Env) (j : Json) (c : Oss), ossFromJson env j = .ok c → structOkB c = true
+
+/-- the diamond: bases 1, 2, 4; 3 = 1 + 2; 5 = 3 + 4, with stored equations, translations, flags, a link -/
+def diamond : Oss :=
+  { title := "diamond", comment := "c", domain := "dom"
+    items := [ { uid := 1, title := "A", pos := ⟨0, 0⟩, src := some { name := "a.trs", type := .rsDoc, coreHash := 11, fullHash := 12 } },
+               { uid := 2, title := "B", alias := "b", pos := ⟨0, 1⟩, link := { address := "http://x", subAddr := "s" } },
+               { uid := 4, dataType := .tba, comment := "D", pos := ⟨0, 2⟩ },
+               { uid := 3, pos := ⟨1, 0⟩, src := some { name := "p.trs", type := .rsDoc, coreHash := 5, fullHash := 6 },
+                 op := some { type := .synt, outdated := true, options := some [(7, 8, { mode := .createNew, arg := "t" }), (9, 8, {})],
+                              translations := some [[(7, 1), (9, 2)], []] } },
+               { uid := 5, pos := ⟨2, 1⟩, op := some { type := .merge, broken := true } } ]
+    rows := [(1, []), (2, []), (3, [1, 2]), (4, []), (5, [3, 4])] }
+
+theorem diamond_wf : OssWf diamond := by
+  refine ⟨⟨by decide, by decide, ?_, ?_⟩, by decide, by decide, ⟨fun p => p, by decide⟩⟩
+  · intro p hp
+    simp only [diamond, List.mem_cons, List.not_mem_nil, or_false] at hp
+    rcases hp with rfl | rfl | rfl | rfl | rfl <;> refine ⟨rfl, fun h hh => ?_⟩ <;> cases hh <;>
+      refine ⟨fun t ht => ?_, fun ts ht => ?_⟩ <;> cases ht <;> decide
+  · refine ⟨by decide, by decide⟩
+
+/-- non-vacuity of `oss_roundtrip` / `oss_stable`: the diamond -/
+example : ∃ c', ossFromJson ⟨fun _ => 0⟩ (ossToJson diamond) = .ok c' ∧ c'.items = diamond.items ∧
+    edgeList c'.rows = [(3, 1), (3, 2), (5, 3), (5, 4)] := by
+  obtain ⟨c', h, _, _, _, hi, he, _⟩ := oss_roundtrip ⟨fun _ => 0⟩ diamond diamond_wf
+  exact ⟨c', h, hi, by rw [he]; decide⟩
+example : (ossFromJson ⟨fun _ => 0⟩ (ossToJson diamond)).map ossToJson = .ok (ossToJson diamond) :=
+  oss_stable _ diamond diamond_wf
+
+/-- the diamond's document with one more connection: `5` gets the parent `424242`, which is not a pictogram -/
+def danglingDoc : Json :=
+  match ossToJson diamond with
+  | .obj kvs => .obj (kvs.map fun kv => if kv.1 == "connections" then
+      (kv.1, edgesToJson (edgeList diamond.rows ++ [(5, 424242)])) else kv)
+  | j => j
+
+/-- … and with the connection `1 → 5` (a base gets the top operation as a parent): the cycle 5 → 3 → 1 → 5 -/
+def cycleDoc : Json :=
+  match ossToJson diamond with
+  | .obj kvs => .obj (kvs.map fun kv => if kv.1 == "connections" then
+      (kv.1, edgesToJson (edgeList diamond.rows ++ [(1, 5)])) else kv)
+  | j => j
+
+/-- **oss_load_wf_counterexample**: the loader accepts a document with a dangling parent and one with
+a cycle (`LoadParent` checks neither the existence of the pictograms, nor the number of parents, nor
+cycles longer than two); the loaded schema violates the structural invariant. The real `from_json`
+does the same (harness lines `c10 ossdocload … wf=0`). -/
+theorem oss_load_wf_counterexample :
+    (ossFromJson ⟨fun _ => 0⟩ danglingDoc).map structOkB = .ok false ∧
+    (ossFromJson ⟨fun _ => 0⟩ cycleDoc).map structOkB = .ok false ∧
+    (ossFromJson ⟨fun _ => 0⟩ (ossToJson diamond)).map structOkB = .ok true := by
+  refine ⟨?_, ?_, ?_⟩ <;> rfl
+
+theorem oss_load_wf_statement_false : ¬ oss_load_wf_statement := by
+  intro hall
+  have h := oss_load_wf_counterexample.1
+  cases hc : ossFromJson ⟨fun _ => 0⟩ danglingDoc with
+  | error e => rw [hc] at h; simp [Except.map] at h
+  | ok c =>
+    rw [hc] at h
+    have := hall _ _ c hc
+    simp [Except.map, this] at h
+
+/-- **oss_load_wf_partial**: the part of `oss_load_wf_statement` that holds for EVERY accepted `items`
+array (the missing hypothesis of the full statement is on `connections`: existing pictograms, two
+parents per operation, none per base, no cycle): whatever `LoadPicts` loads has one entry, one grid
+cell and one source handle per pictogram, and nothing is dropped — a repeated `pictUID` is replaced
+by a new identifier, an occupied cell by a free one. -/
+theorem oss_load_wf_partial (env : Env) (ps l : List Pict) (hs : ∀ p ∈ ps, p.src.isSome = true)
+    (h : loadPicts env [] ps = .ok l) :
+    (l.map (·.uid)).Nodup ∧ (l.map (·.pos)).Nodup ∧ (∀ p ∈ l, p.src.isSome = true) ∧ l.length = ps.length := by
+  have := loadPicts_keys env ps [] l (by simp) (by simp) (by simpa using hs) h
+  simpa using this
+
+/-- non-vacuity: a repeated uid in an occupied cell -/
+example : loadPicts ⟨fun _ => 99⟩ [] [{ uid := 1 }, { uid := 1 }] = .ok [{ uid := 1 }, { uid := 99, pos := ⟨0, 1⟩ }] := by rfl
+
+end CCVerif.JsonOss
